@@ -15,6 +15,9 @@ def art_md(rng, i):
     if r < 0.85:
         v = J.rand_json(rng, depth=2)
         return v
+    if r < 0.9:
+        inner = {"name": "pkg%d" % i, "v": rng.randint(0, 3)}
+        return {"signatures": rng.choice([{}, {"x": 1}, {PUBHEX[3]: E.raw_sig(3, inner)}]), "signed": inner}      # shaped like an envelope: still just metadata
     return rng.choice([{}, [], "str", 5, None, {"é\ud800": [1.5, -0.0, 1e16]}, M.md("root", 1, {"root": M.delegation((0,), 1)}), M.md("key_mgr", 1, {})])
 
 
